@@ -20,6 +20,9 @@ type MemtableId = u64;
 #[verifier::external_body] struct Error { p: u8 }
 #[verifier::external_body] struct Path { p: u8 }
 #[verifier::external_body] struct SequenceNumberCounter { p: u8 }
+/// `drawn(c, s)`: s was drawn by this step from the counter with identity c (unit super_versions, C02.14)
+uninterp spec fn drawn(counter: int, s: SeqNo) -> bool;
+impl SequenceNumberCounter { uninterp spec fn id(&self) -> int; }
 #[verifier::external_body] struct Table { p: u8 }
 #[verifier::external_body] struct BlobFile { p: u8 }
 struct FragmentationMap { ghost empty: bool }
@@ -56,6 +59,18 @@ impl SuperVersions {
         ensures
             r is Err ==> final(self).h@ == old(self).h@,
             r is Ok ==> final(self).h@.len() == old(self).h@.len() + 1 && final(self).h@.drop_last() == old(self).h@
+                && drawn(seqno.id(), final(self).h@.last().seqno)
+                && (exists|sv: SuperVersion| #[trigger] call_ensures(f, (&old(self).h@.last(),), Ok::<SuperVersion, Error>(sv))
+                    && final(self).h@.last().version == sv.version && final(self).h@.last().active_memtable == sv.active_memtable && final(self).h@.last().sealed_memtables == sv.sealed_memtables),
+    { unimplemented!() }
+    /// upgrade_version_with_seqno stamps the entry with the GIVEN number (unit super_versions)
+    #[verifier::external_body]
+    fn upgrade_version_with_seqno<F: FnOnce(&SuperVersion) -> Result<SuperVersion, Error>>(&mut self, tree_path: &Path, f: F, seqno: SeqNo, visible_seqno: &SequenceNumberCounter) -> (r: Result<(), Error>)
+        requires old(self).h@.len() > 0, call_requires(f, (&old(self).h@.last(),)),
+        ensures
+            r is Err ==> final(self).h@ == old(self).h@,
+            r is Ok ==> final(self).h@.len() == old(self).h@.len() + 1 && final(self).h@.drop_last() == old(self).h@
+                && final(self).h@.last().seqno == seqno
                 && (exists|sv: SuperVersion| #[trigger] call_ensures(f, (&old(self).h@.last(),), Ok::<SuperVersion, Error>(sv))
                     && final(self).h@.last().version == sv.version && final(self).h@.last().active_memtable == sv.active_memtable && final(self).h@.last().sealed_memtables == sv.sealed_memtables),
     { unimplemented!() }
@@ -103,10 +118,12 @@ impl Tree {
                 let o = old(version_lock).h@.last(); let n = final(version_lock).h@.last();
                 // declined (a sealed memtable is gone already): nothing changes
                 (n == o && exists|i: int| 0 <= i < sealed_memtables_to_delete@.len() && !o.sealed_memtables.ids.contains(#[trigger] sealed_memtables_to_delete@[i]))
-                // registered: the run is in and the flushed memtables are out, in one step
-                || registered(n, o, tables@, match blob_files { Some(b) => Some(b@), None => None }, frag_map, sealed_memtables_to_delete@) }),
+                // registered: the run is in and the flushed memtables are out, in one step; the new version carries a number freshly
+                // drawn from the tree's write counter, so no snapshot opened before re-resolves to it (C02.14)
+                || (registered(n, o, tables@, match blob_files { Some(b) => Some(b@), None => None }, frag_map, sealed_memtables_to_delete@)
+                    && drawn(self.config.seqno.id(), n.seqno)) }),
     {
-//@ FROM src/tree/mod.rs :: AbstractTree for Tree :: fn register_tables :: STMTS `>let mut version_lock =` .. `Ok ( ( ) )` :: OBL C16.9, C01.14
+//@ FROM src/tree/mod.rs :: AbstractTree for Tree :: fn register_tables :: STMTS `>let mut version_lock =` .. `Ok ( ( ) )` :: OBL C16.9, C01.14, C02.14
 //@ SUBST `sealed_memtables_to_delete . iter ( ) . any ( $1 )` ==> `any_missing(sealed_memtables_to_delete, &version_lock.latest_version())`
 //@ SUBST `for & table_id in sealed_memtables_to_delete` ==> `for table_id in ids_iter(sealed_memtables_to_delete)`
         if any_missing(sealed_memtables_to_delete, &version_lock.latest_version())
